@@ -50,7 +50,9 @@ def gen_election(rnd, rule=None, small=False, flags=None, large=False, xlarge=Fa
         return f[name]
 
     r = rnd.random()
-    if xlarge:
+    if xlarge == 'xx':
+        n = rnd.randint(55, 70)         # more than fifty rounds
+    elif xlarge:
         n = rnd.randint(20, 30)
     elif large:
         n = rnd.randint(9, 14)
